@@ -8,7 +8,7 @@ import numpy as np
 from hypothesis import strategies as st
 
 from .. import h_slot as hs
-from ..runner import Part
+from ..runner import HarnessError, Part
 
 PROP = "C10"
 RULE = (
@@ -362,7 +362,9 @@ def check_comp(case, ctx):
         # spill files only disappear through eviction/finalize, so look after connect and count at the end
         import finam.sdk.output as fo
 
-        real_pack = fo.Output._pack
+        real_pack = getattr(fo.Output, "_pack", None)
+        if real_pack is None:
+            raise HarnessError("Output._pack not found: the file watcher of the composition part needs updating")
 
         def watching_pack(self_, data):
             r = real_pack(self_, data)
